@@ -1931,6 +1931,58 @@ def run_cache_read_policy(tier, log, seed):
     CODE = r"FixedBytes<32>, Bytecode"
     analyse("code_by_hash", r"\(_1: &mut CacheDB<", r"as (primitives::db::)?DatabaseRef>::code_by_hash_ref$", (CODE, None), [], False)
     analyse("code_by_hash_ref", r"\(_1: &CacheDB<", r"as (primitives::db::)?DatabaseRef>::code_by_hash_ref$", (CODE, None), [], False)
+    # ---- account info: basic_ref, and what a cached account reports (DbAccount::info: absent iff NotExisting, otherwise the stored info)
+    def simple(name, fn, rules, consts, expected_of, extra, note):
+        fl = mirflow.Flow(fn, rules, consts)
+        try:
+            decls, asserts, cells, order, returns, out = fl.encode()
+        except mir.Unsupported as e:
+            inconcl.append(f"CacheDB::{name}: {e}")
+            return
+        exp, ext, names = expected_of(fl)
+        if exp is None:
+            st, outp = replay()
+            bad = [t for t in re.findall(r"\[([^\]]*)\]", outp) if t.startswith(name + " ") and "MISMATCH" in t] if st == "ok" else []
+            (failures if bad else inconcl).append(dict(id=f"cachedb-{name}", reproduced=True, description=f"CacheDB::{name}: shape not recognised; native: {bad}") if bad else f"CacheDB::{name}: shape not recognised (native scenarios agree)")
+            return
+        viol = "(or " + " ".join(f"(and on_{b} (not (= {out('_0', b)} {exp})) (not (= {out('_0', b)} {ERR})))" for b in returns) + ")"
+        v, model, detail = duo.check(decls, asserts + ext + [viol], want_model_of=[f"on_{b}" for b in order] + names)
+        samples.append(f"CacheDB::{name}: {len(order)} blocks: {note}: {v}")
+        log(f"[e3] {samples[-1]}")
+        if v == "unsat":
+            return
+        if v != "sat":
+            inconcl.append(f"CacheDB::{name}: {detail}")
+            return
+        st, outp = replay()
+        bad = [t for t in re.findall(r"\[([^\]]*)\]", outp) if t.startswith(name + " ") and "MISMATCH" in t] if st == "ok" else []
+        failures.append(dict(id=f"cachedb-{name}", reproduced=bool(bad), description=f"CacheDB::{name}: {note} | native: {bad or 'all scenarios agree'}"))
+    INFO_CACHED, INFO_NONE = 21, 22
+    c = [f for n, fl_ in funcs.items() for f in fl_ if re.search(r"^in_memory_db::<impl at [^>]*>::info$", n) and "DbAccount" in f.text.split("\n")[0]]
+    if len(c) != 1:
+        inconcl.append(f"DbAccount::info: {len(c)} MIR bodies")
+    else:
+        def exp_info(fl):
+            dv = [n_ for n_, what in fl.notes if what.startswith("discriminant(") and "AccountState" in what]
+            if len(dv) != 1:
+                return None, [], []
+            return f"(ite (= {dv[0]} {states.index('NotExisting')}) {INFO_NONE} {INFO_CACHED})", [f"(>= {dv[0]} 0)", f"(< {dv[0]} {len(states)})"], dv
+        simple("info", c[0], [(r"<AccountInfo as Clone>::clone$", "arg:0")],
+               [(r"^Option::<AccountInfo>::None$", INFO_NONE), (r"^&\(\(\*_1\)\.0: (\w+::)*AccountInfo\)$", INFO_CACHED)], exp_info, [],
+               "a cached account does not report `absent` exactly in state NotExisting and its stored info otherwise")
+    c = [f for n, fl_ in funcs.items() for f in fl_ if re.search(r"^in_memory_db::<impl at [^>]*>::basic_ref$", n) and re.search(r"\(_1: &CacheDB<", f.text.split("\n")[0])]
+    if len(c) != 1:
+        inconcl.append(f"CacheDB::basic_ref: {len(c)} MIR bodies")
+    else:
+        def exp_basic_ref(fl):
+            g = [(b.name, (cc[0] or "").strip()) for b in c[0].blocks.values() for cc in [mir.call_of(b.term or "")] if cc and re.search(r"^HashMap::<Address, DbAccount>::get::<Address>$", cc[1])]
+            if len(g) != 1:
+                return None, [], []
+            d = f"disc_{g[0][1]}"
+            return f"(ite (= {d} 1) (+ {CACHE} 100) {INNER})", [f"(or (= {d} 0) (= {d} 1))"], [d]
+        simple("basic_ref", c[0], [(r"^HashMap::<Address, DbAccount>::get::<Address>$", f"tag:{CACHE}"), (r"^DbAccount::info$", lambda cc, a, env, b, fl: f"(+ {fl.rvalue(a, env, b) or 0} 100)"),
+                                   (r"as (primitives::db::)?DatabaseRef>::basic_ref$", f"tag:{INNER}")], [], exp_basic_ref, [],
+               "the answer is not the cached account's info() if the account is cached, else the wrapped database's answer")
     q, tm = duo.queries, duo.time
     duo.close()
     res = dict(queries=q, solver_s=tm, engine="mir provenance-flow -> smtlib (z3 4.8.12 + cvc5 1.0)", bounds="; ".join(samples),
